@@ -8,9 +8,10 @@ LEVEL = 'other'
 RULES = {
     'C01.R1': 'layer dispatch table: each Layer variant reaches its own generator with its own payload and the running dimension; constants by value; composed receiver is the tree being built',
     'C01.R2': 'running dimension = output dimension of the tree: arms whose generator changes the dimension assign it (Linear -> outdim(payload), heads with constant terminals -> 1), the others do not',
+    'C01.R4': 'inherited necessary conditions (shared rules): the evaluator tests mat·x - bias <= 0 (closed) and follows the label it computes; the elimination run between layers removes only Infeasible paths and never the last child of a decision',
     'C01.R3': 'precondition: its input dimension is asserted equal to dim before use and the running dimension is taken from its terminals',
 }
-FLOORS = {'C01.R1': 7, 'C01.R2': 7, 'C01.R3': 1}
+FLOORS = {'C01.R1': 7, 'C01.R2': 7, 'C01.R3': 1, 'C01.R4': 13}
 EXPLANATION = ('C01 is the composition of C02 (apply_func/compose), C03 (elimination), C17 (schema trees) and the clause decided here: the distiller feeds each layer to the right '
                'generator with the right arguments and keeps its running dimension equal to the tree\'s output dimension.')
 DOES_NOT_DECIDE = 'numeric agreement (delegated to C02/C03/C17 and their limits)'
@@ -67,6 +68,23 @@ def running_dim_local(b, bb, argi):
                 continue
         break
     return l
+
+
+def shared(ctx):
+    """C01.R4: necessary conditions C01 inherits from C09 (evaluator convention) and C03 (pruning between layers is function-preserving)."""
+    from ..core import Ctx
+    from . import c09
+    sub = Ctx(ctx.facts, ctx.tier, ctx.prop)
+    prune.check_removals(sub, 'C01.R4')
+    prune.check_childless(sub, 'C01.R4')
+    prune.check_infeasible_provenance(sub, 'C01.R4')
+    c09.run(sub)
+    keep = ('AffTree::infeasible_elimination#', 'AffTree::forward_if_redundant#', 'AffTree::generic_composition_inplace#', 'AffTree::phase_two#',
+            'AffTree::evaluate_decision#', 'AffTree::index_from_label#', 'AffTree::find_terminal#', 'AffTree::evaluate#')
+    for i in sub.insts:
+        if i.site.startswith(keep):
+            i.rule = 'C01.R4'
+            ctx.insts.append(i)
 
 
 def run(ctx):
@@ -141,6 +159,7 @@ def run(ctx):
                 ctx.bad('C01.R1', site, p, t['span'])
         else:
             ctx.ok('C01.R1', site, 'compose(%s(dim, payload%s))' % (gname, ''.join(', %s' % x for x in consts)), t['span'])
+    shared(ctx)
     # ---- R2
     dim_locals.discard(None)
     if len(dim_locals) != 1:
